@@ -224,3 +224,65 @@ def append_short_fragment(data: bytes, keep: int) -> bytes:
     if not Parsed(out).well_formed():
         raise ValueError('short fragment produced a malformed file')
     return out
+
+
+def strip_tfdt(data: bytes) -> bytes:
+    """The same media stored without tfdt boxes (legal for the first fragments of older packagers; the service then has to
+    synthesise the decode times): every traf loses its tfdt, sizes of traf / moof, trun.data_offset, saio offsets (all
+    relative to the start of the moof) and the per-segment sidx reference are adjusted."""
+    p = Parsed(data)
+    out = bytearray()
+    last = 0
+    tops = list(p.top)
+    for i, b in enumerate(tops):
+        if b.name != 'moof':
+            continue
+        traf = b.find('traf')
+        tfdt = traf.find('tfdt') if traf is not None else None
+        if tfdt is None:
+            continue
+        sz = tfdt.size
+        m = bytearray(data[b.pos:b.end])
+        rel = lambda x: x.pos - b.pos      # noqa: E731
+        for c in traf.children:
+            if c.pos < tfdt.pos:
+                continue
+            if c.name == 'trun' and c.f['flags'] & 0x001:
+                off = rel(c) + c.hdr + 8
+                struct.pack_into('>i', m, off, struct.unpack_from('>i', m, off)[0] - sz)
+            if c.name == 'saio':
+                body = rel(c) + c.hdr
+                ver, fl = m[body], struct.unpack_from('>I', m, body)[0] & 0xFFFFFF
+                q = body + 4 + (8 if fl & 1 else 0)
+                n = struct.unpack_from('>I', m, q)[0]
+                q += 4
+                for _ in range(n):
+                    if ver == 0:
+                        struct.pack_into('>I', m, q, struct.unpack_from('>I', m, q)[0] - sz)
+                        q += 4
+                    else:
+                        struct.pack_into('>Q', m, q, struct.unpack_from('>Q', m, q)[0] - sz)
+                        q += 8
+        if any(c.name == 'trun' and c.pos < tfdt.pos for c in traf.children):
+            raise ValueError('trun before tfdt is not supported')
+        struct.pack_into('>I', m, 0, b.size - sz)
+        struct.pack_into('>I', m, rel(traf), traf.size - sz)
+        del m[rel(tfdt):rel(tfdt) + sz]
+        # a per-segment sidx directly in front of this moof
+        head = bytearray(data[last:b.pos])
+        prev = tops[i - 1] if i else None
+        if prev is not None and prev.name == 'sidx' and prev.pos >= last:
+            body = prev.pos - last + prev.hdr
+            ver = head[body]
+            refs = body + 4 + 8 + (8 if ver == 0 else 16) + 4
+            if struct.unpack_from('>H', head, refs - 2)[0] == 1:
+                word = struct.unpack_from('>I', head, refs)[0]
+                struct.pack_into('>I', head, refs, (word & 0x80000000) | ((word & 0x7FFFFFFF) - sz))
+        out += head + m
+        last = b.end
+    out += data[last:]
+    res = bytes(out)
+    chk = Parsed(res)
+    if not chk.well_formed() or any(x.name == 'tfdt' for x in chk.boxes()):
+        raise ValueError('stripping tfdt produced a malformed file')
+    return res
